@@ -215,9 +215,9 @@ def run(repo, col):
                            "happens before the evidence is grounded into the same sample, heads of a disjunction reached through evidence are drawn afresh and two heads can be true" % f2.qualname,
                            function=f2.qualname)
     col.floor("M7.finalisation_calls", ncall, 1)
-    # M9: facts fixed by propagated evidence are handed to the sampler with their weight replaced (1.0 / 0.0) and EVERYTHING ELSE of the atom node kept - the group in
-    # particular: add_atom closes the annotated disjunction of a fixed head only if it knows the group
-    col.rule("M9", "init_db: evidence-fixed facts keep the rest of the atom node (group)")
+    # M9 / M10: facts fixed by propagated evidence reach the sampler with their truth value AND their whole atom node (original probability, group, ...): the sampler needs the
+    # group to close the disjunction of a head fixed true, and the original probability to take the mass of a head fixed false out of its group
+    col.rule("M9", "init_db: evidence-fixed facts keep their atom node (probability and group) next to the fixed value")
     idb = mod.functions.get("init_db")
     if idb is None:
         raise AnalysisError("init_db missing")
@@ -225,6 +225,7 @@ def run(repo, col):
     if len(loops9) != 1:
         raise AnalysisError("init_db: loop over the propagated evidence not found")
     n9 = 0
+    shape9 = None
     for q in dtable.extract_block(loops9[0].body, opaque_loops=True):
         apps = [a_ for fn, a_, _ in q.calls if fn.endswith(".append")]
         cd9 = dict((s_, t) for s_, t, _ in q.conds)
@@ -233,14 +234,58 @@ def run(repo, col):
             continue
         n9 += 1
         val = apps[0][0].replace(" ", "")
-        want_w = "1.0" if tv and "is_true(" in tv[0] else "0.0"
-        mm9 = re.match(r"^\((.+)\[0\],(1\.0|0\.0)\)\+(.+)\[2:\]$", val)
-        ok9 = mm9 is not None and mm9.group(1) == mm9.group(3) and mm9.group(2) == want_w
-        col.decide("M9", mod, loops9[0], ok9, "a fact fixed %s by the evidence keeps identifier and remaining fields, weight %s" % ("true" if want_w == "1.0" else "false", want_w),
-                   "init_db hands the sampler %s for a fact that propagated evidence fixed %s: the tuple must be (identifier, %s) + the remaining fields of the atom node (node[2:]); without "
-                   "the group the sampler treats an evidence-fixed head of an annotated disjunction as a plain fact, never closes its group and draws a second head of the same "
-                   "disjunction" % (apps[0][0][:60], "true" if want_w == "1.0" else "false", want_w), construct="init_db: evidence fact %s" % want_w, function="init_db")
+        truth = bool(tv) and "is_true(" in tv[0]
+        new_m = re.match(r"^\((.+)\[0\],(True|False)\)\+(.+)\[1:\]$", val)
+        old_m = re.match(r"^\((.+)\[0\],(1\.0|0\.0)\)\+(.+)\[2:\]$", val)
+        if new_m is not None and new_m.group(1) == new_m.group(3):
+            shape9 = "value+node"
+            ok9 = new_m.group(2) == str(truth)
+            why9 = "the tuple must be (identifier, %s) + node[1:]" % truth
+        elif old_m is not None and old_m.group(1) == old_m.group(3):
+            shape9 = "weight"
+            ok9 = old_m.group(2) == ("1.0" if truth else "0.0")
+            why9 = "the tuple must be (identifier, %s) + node[2:]" % ("1.0" if truth else "0.0")
+        else:
+            ok9 = False
+            why9 = "the tuple must carry the identifier, the fixed value and the remaining fields of the atom node (the group in particular)"
+        col.decide("M9", mod, loops9[0], ok9, "a fact fixed %s by the evidence keeps its identifier and the remaining fields of its atom node" % ("true" if truth else "false"),
+                   "init_db hands the sampler %s for a fact that propagated evidence fixed %s: %s; without the group the sampler treats an evidence-fixed head of an annotated disjunction "
+                   "as a plain fact, never closes its group and draws a second head of the same disjunction" % (apps[0][0][:60], "true" if truth else "false", why9),
+                   construct="init_db: evidence fact fixed %s" % ("true" if truth else "false"), function="init_db")
     col.floor("M9.evidence_fact_rows", n9, 2)
+    col.rule("M10", "a disjunction head that the evidence rules out takes its probability mass out of the group")
+    sf = repo.cls(MOD, "SampledFormula")
+    if shape9 == "weight":
+        col.fail("M10", mod, loops9[0], "init_db replaces the probability of an evidence-fixed fact by 1.0 / 0.0 before the sampler sees it: for a head of an annotated disjunction that the "
+                 "evidence rules out, add_atom then subtracts 0.0 from the remaining mass of the group, so the other heads are drawn with p instead of p / (1 - p_excluded) - "
+                 "0.3::a; 0.3::b; 0.4::c. evidence(\\+a). estimates P(b) = 0.30 instead of 0.43 with propagate_evidence", construct="init_db: original probability of an excluded head lost",
+                 function="init_db")
+    elif shape9 == "value+node":
+        ea = sf.methods.get("add_evidence_atom")
+        if ea is None:
+            raise AnalysisError("SampledFormula.add_evidence_atom missing although init_db produces (identifier, value, probability, ...) tuples")
+        pr = ea.params[3] if len(ea.params) > 3 else None
+        okm = False
+        for q in dtable.extract(ea.node, opaque_loops=True):
+            st = [a_ for fn, a_, _ in q.calls if fn == "<store>" and a_ and a_[0].startswith("self.groups[")]
+            cdq = dict((s_, t) for s_, t, _ in q.conds)
+            if st and pr is not None and cdq.get(ea.params[2]) is False:
+                v_ = st[-1][1].replace(" ", "")
+                okm = v_.endswith("-float(%s)" % pr) or v_.endswith("-%s" % pr)
+        col.decide("M10", mod, ea.node, okm, "add_evidence_atom lowers the remaining mass of the group by the excluded head's own probability",
+                   "SampledFormula.add_evidence_atom must store groups[origin] = remaining - probability for a head of an annotated disjunction that the evidence fixes false",
+                   construct="add_evidence_atom: remaining mass of the group", function="SampledFormula.add_evidence_atom")
+        # consumers hand the tuples to add_evidence_atom
+        nuse = 0
+        for fn_ in ("sample", "estimate"):
+            g_ = mod.functions.get(fn_)
+            for c_ in ast.walk(g_.node):
+                if isinstance(c_, ast.Call) and isinstance(c_.func, ast.Attribute) and c_.func.attr in ("add_atom", "add_evidence_atom") and c_.args and isinstance(c_.args[0], ast.Starred):
+                    nuse += 1
+                    col.decide("M10", mod, c_, c_.func.attr == "add_evidence_atom", "%s feeds the evidence facts to add_evidence_atom" % fn_,
+                               "%s passes an evidence tuple (identifier, value, probability, ...) to add_atom, which reads the value as the probability" % fn_, function=fn_)
+        col.floor("M10.consumers", nuse, 2)
+    # any other shape has been reported by M9 (the tuple does not carry the atom node)
     # M8: evidence check on the propagated ground program: an annotated-disjunction atom the sampler did not draw takes its weight from the sampler's group record
     # (q_target.groups): remaining mass None = a sibling head was chosen = the atom is false
     col.rule("M8", "verify_evidence: unsampled disjunction atoms follow the sampler's group record")
